@@ -399,6 +399,16 @@ theorem T_C06_payload (p : NumV3) (ps : List NumV3) :
   simp only [vectorTokens, vectorFormat, List.map_cons, List.map_nil, List.mem_cons, List.not_mem_nil, or_false] at hs
   rcases hs with rfl | rfl | rfl <;> exact T_C06_fmt_wellformed 8 (by decide) _ _
 
+/-- **T_C06_sphere_geometry.** The geometry entry a sphere shape brings: `origin` and `centre` are the same `vector_format` of the
+    centre — three well-formed `%.8f` tokens — and the radius is `str(radius)`. -/
+theorem T_C06_sphere_geometry (label : String) (c : NumV3) (r : PyNum) :
+    (sphereGeometry label c r).name = label ∧
+    (sphereGeometry label c r).props =
+      [[.atom "type", .atom "searchableSphere"], [.atom "origin", .paren ((vectorTokens c.pos c.neg).map .atom)],
+       [.atom "centre", .paren ((vectorTokens c.pos c.neg).map .atom)], [.atom "radius", .atom r.str]] ∧
+    ∀ s ∈ vectorTokens c.pos c.neg, isFixedToken 8 s.toList = true :=
+  ⟨rfl, rfl, (T_C06_payload c []).2.2.2⟩
+
 /-! ### `str(float)`: grading values and VTK coordinates -/
 
 /-- **T_C06_repr_value.** A token accepted by the validator `reprOk` for the double `x ≠ 0` denotes a rational within
